@@ -360,6 +360,13 @@ def run_shard(ctx):
             class M(fsic.BaseModel):
                 pass
             check_spec(ctx, spec, cls=lambda span: _as_container(M, span))
+        if si % 3 == 1 or 'pd.' in spec.kind:
+            # ... and on a linker, whose span is taken over from its first submodel: labels are addressed as on that submodel
+            class S(fsic.BaseModel):
+                ENDOGENOUS = ['Y']
+                NAMES = ENDOGENOUS
+            ctx.count('linker_specs')
+            check_spec(ctx, spec, cls=lambda span: fsic.BaseLinker({'s': S(span)}))
         if spec.kind in ('list[mixed hashables]', 'list[float]', 'range(-10**12,..)'):
             # the alias mixin only ever translates *names*: labels of any kind (None, tuples, floats, ...) pass through untouched
             from fsic.extensions import AliasMixin
